@@ -93,6 +93,11 @@ NAT_METHODS = ["len", "iter", "is_alpha", "is_digit", "is_hexdigit", "count_char
                "clear", "keys", "values", "items", "next", "map", "filter", "collect", "derives"]
 NAT_ARGS = ["0", "1", "-1", "2", "3", "100", "0.5", "-0.0", "1 / 0", "0 / 0", "nil", '""', '"a"', '"abc"', '"abcdef"', '","', '"bc"', "[]", "[1]", "(1,)",
             "true", "0..2", "2..1", "-1..1", "1..100", "|x| { return x; }", "Num", "String"]
+# numbers at the edge of the integer types the interpreter converts to (negation, casts and subtraction overflow there)
+NAT_EXTREME = ["-1 / 0", "1 / 0", "-9223372036854775808", "9223372036854775807", "9223372036854775808", "-9223372036854775809", "18446744073709551615", "18446744073709551616",
+               "4294967295", "4294967296", "-4294967296", "2147483648", "-2147483649", "1000000000000000000000000000000", "-1000000000000000000000000000000", "9007199254740993"]
+NAT_ARGS += NAT_EXTREME
+NAT_POS = ["0", "1", "2", "3", "-1", "100", "0.5"] * 3 + NAT_EXTREME
 NAT_OPS = ["{r}.to_num()", "{r}.to_num()", "{r}.to_bytes().len()", "{r}.count_chars()",
            # methods read as values (bound, not called)
            "{r}.iter().map", "{r}.iter().filter", "{r}.iter().collect", "{r}.iter().reduce", "{r}.len", "{r}.iter", "{r}.push", "{r}.keys", "{r}.find",
@@ -115,7 +120,7 @@ def nat_program(seed):
         if rng.chance(0.4):
             expr = "%s.%s(%s)" % (r, rng.choice(NAT_METHODS), ", ".join(rng.choice(NAT_ARGS) for _ in range(rng.weighted([(3, 0), (5, 1), (3, 2), (1, 3)]))))
         else:
-            expr = rng.choice(NAT_OPS).format(r=r, a=rng.choice(NAT_ARGS), b=rng.choice(NAT_ARGS), n=rng.choice(["0", "1", "2", "3", "-1", "100", "0.5"]))
+            expr = rng.choice(NAT_OPS).format(r=r, a=rng.choice(NAT_ARGS), b=rng.choice(NAT_ARGS), n=rng.choice(NAT_POS))
         out.append('try { print(("ev", %d, show(%s))); } catch e%d { print(("ev", %d, "error", type(e%d))); }' % (i, expr, i, i, i))
     return "\n".join(out) + "\n"
 
@@ -241,6 +246,9 @@ class C10:
                     cur = [(norm_events(p["events"]), norm_outcome(p["outcome"])) for p in h["programs"]]
                 if config == configs[0]:
                     ref = (po, cur)
+                    if fam == "NAT" and not po and h["programs"][0]["outcome"].get("err") == "CompileError":
+                        # every NAT statement is wrapped in try/catch; a program that does not compile is the generator's mistake
+                        return {"stats": stats, "nontrivial": False, "invalid": "NAT program does not compile: %s" % json.dumps(h["programs"][0]["outcome"])[:200]}
                     if cur:
                         nev = sum(len(c[0]) for c in cur)
                         stats.inc("events", nev)
